@@ -36,6 +36,8 @@ FramedAsDeclared(r) ==
   /\ r.consumed = r.emitted /\ r.decGood /\ ~r.decThrew   \* decoding consumes exactly what was emitted
   /\ r.reencSame                                       \* every length/count field = payload actually emitted:
                                                        \*   encoding what was decoded reproduces the bytes
+  /\ r.ufSame                                          \* the same bytes reach the uncompressed stream, wherever
+                                                       \*   log container boundaries fall (payload, padding, end)
 
 (* C01 at object level — decoding the encoding gives the same class and the same values *)
 RoundTrip(r) ==
